@@ -61,6 +61,12 @@ def gen_chunk(rng, k, kind, lead_blank):
             lines += ['number_%d = 5' % k, 'for item_%d in number_%d:  # loop_%d' % (k, k, k), '    print(item_%d)' % k]
             label = 'iterating_over_non_list'
         planted = {'kind': 'tifa-loop', 'token': '# loop_%d' % k, 'label': label}
+    elif kind == 'runtime' and rng.random() < 0.4:
+        # the error surfaces below the student's line, in a frame that is not the student's (a library, pedal's replacement of open)
+        how = rng.choice(["import json\nparsed_%d = json.loads('{')  # boom_%d" % (k, k), "handle_%d = open('no_such_file_%d.txt')  # boom_%d" % (k, k, k),
+                          "import json\ndef load_%d():\n    return json.loads('[1,')  # boom_%d\nload_%d()  # call_%d" % (k, k, k, k)])
+        lines += how.split('\n')
+        planted = {'kind': 'runtime', 'token': '# boom_%d' % k, 'frames': ['# boom_%d' % k] + (['# call_%d' % k] if 'call_' in how else []), 'in_library': True}
     elif kind == 'runtime':
         lines += ['def outer_%d(a):' % k, '    return inner_%d(a)' % k, '', 'def inner_%d(a):' % k, '    total = 10',
                   '    return total // a  # boom_%d' % k, 'started_%d = True' % k, 'outer_%d(0)' % k]
@@ -168,6 +174,7 @@ def check(ctx, case):
     nontrivial = False
     sub = report.submission
     n_sections = len(chunks)
+    defined_earlier = []          # functions that a run() of an earlier section left in the sandbox
     for k in range(n_sections + h['past']):
         if k > 0:
             n_before = len(report.feedback) + len(report.ignored_feedback)
@@ -217,6 +224,8 @@ def check(ctx, case):
                 ctx.violation('C17|tool-raised|%s|%s' % (tool, type(e).__name__), dict(case, upto=k), traceback.format_exc()[-500:])
                 return
             ctx.count('tool_calls')
+            if tool == 'run' and planted.get('kind') == 'callable' and sbx.get_exception() is None:
+                defined_earlier.append((k, planted))
             new = report.feedback[n0:]
             for fb in new:
                 # every line reported while a section is active lies inside that section's span of the original file
@@ -292,7 +301,28 @@ def check(ctx, case):
                     if any(n != exp_line for n in nums):
                         ctx.violation('C17|traceback-line-not-a-planted-frame|syntax|%s|%s' % (key_mode, 'section-0' if k == 0 else 'later-section'),
                                       dict(case, upto=k), 'traceback names lines %s, planted at %s' % (nums, exp_line))
+        # ---- a function that an EARLIER section defined (the sandbox keeps it), called while this section is active -----------
+        earlier = [(j, p) for j, p in defined_earlier if j < k]
+        if earlier and 'call' in tools and k < n_sections:
+            j, p = earlier[-1]
+            n0 = len(report.feedback)
+            try:
+                sbx.call(p['fname'], 7)
+            except Exception as e:
+                ctx.violation('C17|tool-raised|call-of-earlier-section-function|%s' % type(e).__name__, dict(case, upto=k), traceback.format_exc()[-400:])
+                return
+            ctx.count('calls_of_functions_from_earlier_sections')
+            want_line = line_of(text, p['token'])
+            for fb in report.feedback[n0:]:
+                if str(fb.category or '').lower() == 'runtime' and want_line is not None:
+                    got = getattr(fb.location, 'line', None)
+                    ctx.count('lines_compared')
+                    nontrivial = True
+                    if got != want_line:
+                        ctx.violation('C17|wrong-line|runtime-in-a-function-defined-by-an-earlier-section|%s' % key_mode, dict(case, upto=k),
+                                      'the function of section %d fails at whole-file line %d; while section %d is active the feedback says %r' % (j, want_line, k, got))
     # ---- ending -----------------------------------------------------------------------------------------
+    sections_done = True
     try:
         if h['ending'] == 'stop_sections':
             stop_sections()
@@ -304,6 +334,32 @@ def check(ctx, case):
     if sub.main_code != text:
         ctx.violation('C17|main-code-not-restored|%s' % h['ending'], case, {'got': sub.main_code[-200:]})
     ctx.count('restorations_checked')
+    # ---- after the sections are over the tools see the whole file again: their line numbers are whole-file numbers ---------
+    whole_parses = True
+    try:
+        compile(text, 'answer.py', 'exec')
+    except (SyntaxError, ValueError):
+        whole_parses = False
+    if whole_parses and h['ending'] == 'stop_sections':
+        n0 = len(report.feedback)
+        try:
+            tifa_analysis()
+        except Exception as e:
+            ctx.violation('C17|tool-raised|tifa-after-sections|%s' % type(e).__name__, case, traceback.format_exc()[-400:])
+            return
+        for fb in report.feedback[n0:]:
+            if fb.label in ('initialization_problem', 'possible_initialization_problem'):
+                try:
+                    name = fb.fields.get('name')
+                except Exception:
+                    name = None
+                ps = [p for p in f['planted'] if p.get('kind') == 'tifa' and p.get('name') == name]
+                if ps and line_of(text, ps[0]['token']) is not None:
+                    ctx.count('lines_compared_after_sections_ended')
+                    got = getattr(fb.location, 'line', None)
+                    if got != line_of(text, ps[0]['token']):
+                        ctx.violation('C17|wrong-line|after-sections-ended|tifa|%s' % key_mode, case,
+                                      'planted at whole-file line %d; after stop_sections() the analysis of the whole file says %r' % (line_of(text, ps[0]['token']), got))
     ctx.case(('F:' + text + repr(h)) if nontrivial else None)
     if ctx.evaluations % 67 == 0:
         ctx.sample({'file': text[:500], 'pattern': f['pattern'], 'history': h, 'chunk_kinds': f['kinds']})
